@@ -42,12 +42,12 @@ PathTagTitle(pid) == "/" \o SegText(PathTab[pid].segs[1])
 PathTagName(pid) == "@" \o SegText(PathTab[pid].segs[1])
 
 \* ---- schemas --------------------------------------------------------------
-Sch(notation, root, rtype, uses, enums, props) ==
-  [notation |-> notation, root |-> root, rtype |-> rtype, uses |-> uses, enums |-> enums, props |-> props]
-PseudoSch(n) == Sch(n, "", "", {}, {}, <<>>)
-RefSch(t) == IF t = "[@t1]" THEN Sch("jsight", "array", "array", {"@t1"}, {}, <<[key |-> "", tt |-> "reference", ty |-> "@t1"]>>)
-             ELSE Sch("jsight", "reference", t, {t}, {}, <<>>)
-BodySch(b) == Sch("jsight", BodyTab[b].root, BodyTab[b].rtype, BodyTab[b].uses, BodyTab[b].enums, BodyTab[b].props)
+Sch(notation, root, rtype, uses, inh, enums, props) ==
+  [notation |-> notation, root |-> root, rtype |-> rtype, uses |-> uses, inh |-> inh, enums |-> enums, props |-> props]
+PseudoSch(n) == Sch(n, "", "", {}, {}, {}, <<>>)
+RefSch(t) == IF t = "[@t1]" THEN Sch("jsight", "array", "array", {"@t1"}, {}, {}, <<[key |-> "", tt |-> "reference", ty |-> "@t1"]>>)
+             ELSE Sch("jsight", "reference", t, {t}, {}, {}, <<>>)
+BodySch(b) == Sch("jsight", BodyTab[b].root, BodyTab[b].rtype, BodyTab[b].uses, BodyTab[b].inh, BodyTab[b].enums, BodyTab[b].props)
 
 \* ---- the catalog value ----------------------------------------------------
 EmptyCat == [res |-> "ok", err |-> [cls |-> "", node |-> 0, where |-> "kw"],
@@ -107,14 +107,36 @@ CollectTypes(C, X, js, i, seen) ==
        IF nm # "" /\ nm \in seen THEN CErr(C, "dupname", j, "kw")
        ELSE CollectTypes(C, X, js, i + 1, seen \cup {nm})
 TypeNotationOf(n) == IF Len(n.p) >= 2 THEN n.p[2] ELSE "jsight"
-RECURSIVE CheckTypes(_, _, _, _)
-CheckTypes(C, X, js, i) ==
+\* buildUserTypes: a TYPE of the jsight / regex notation needs a body (first pass, declaration order) ...
+RECURSIVE CheckTypeBodies(_, _, _, _)
+CheckTypeBodies(C, X, js, i) ==
   IF i > Len(js) \/ C.res # "ok" THEN C
-  ELSE LET j == js[i]  n == X.nodes[j]  nt == TypeNotationOf(n) IN
-       IF nt \in {"jsight", "regex"} /\ n.b = "" THEN CErr(C, "bodyempty", j, "kw")
-       ELSE IF nt = "jsight" /\ ~(BodyTab[n.b].uses \subseteq TypeDeclNames(X)) THEN CErr(C, "typenotfound", j, "body")
-       ELSE IF nt = "jsight" /\ ~(BodyTab[n.b].enums \subseteq EnumNames(C)) THEN CErr(C, "enumnotfound", j, "body1")   \* the rule stands on the 2nd line of the pool body
-       ELSE CheckTypes(C, X, js, i + 1)
+  ELSE LET j == js[i]  n == X.nodes[j] IN
+       IF TypeNotationOf(n) \in {"jsight", "regex"} /\ n.b = "" THEN CErr(C, "bodyempty", j, "kw")
+       ELSE CheckTypeBodies(C, X, js, i + 1)
+\* ... then compileUserTypeWithAllDependencies: every type, in declaration order, is compiled AFTER the types it uses
+\* (depth first, each type once), so an undefined name is reported on the body of the first type, in that order, that writes it
+TypeNodeOf(X, name) == LET s == {j \in 1..Len(X.nodes) : X.nodes[j].k = "TYPE" /\ X.nodes[j].parent = 0 /\ Name1(X.nodes[j]) = name} IN
+                       IF s = {} THEN 0 ELSE CHOOSE j \in s : \A x \in s : j <= x
+UseSeq(b) == IF b = "objun" THEN <<"@t1", "@t2">>
+             ELSE LET u == BodyTab[b].uses IN IF u = {} THEN <<>> ELSE <<CHOOSE x \in u : TRUE>>
+RECURSIVE DfsType(_, _, _, _), DfsTypes(_, _, _, _, _)
+DfsType(C, X, name, vis) ==
+  LET j == TypeNodeOf(X, name) IN
+  IF j = 0 \/ name \in vis \/ C.res # "ok" THEN [C |-> C, vis |-> vis]
+  ELSE LET n == X.nodes[j] IN
+       IF TypeNotationOf(n) # "jsight" THEN [C |-> C, vis |-> vis \cup {name}]
+       ELSE LET R == DfsTypes(C, X, UseSeq(n.b), 1, vis \cup {name}) IN
+            IF R.C.res # "ok" THEN R
+            ELSE IF ~(BodyTab[n.b].uses \subseteq TypeDeclNames(X)) THEN [C |-> CErr(R.C, "typenotfound", j, "body"), vis |-> R.vis]
+            ELSE IF ~(BodyTab[n.b].enums \subseteq EnumNames(C)) THEN [C |-> CErr(R.C, "enumnotfound", j, "body1"), vis |-> R.vis]   \* the rule stands on the 2nd line of the pool body
+            ELSE R
+DfsTypes(C, X, names, i, vis) ==
+  IF i > Len(names) \/ C.res # "ok" THEN [C |-> C, vis |-> vis]
+  ELSE LET R == DfsType(C, X, names[i], vis) IN DfsTypes(R.C, X, names, i + 1, R.vis)
+CheckTypes(C, X, js, i) ==
+  LET C1 == CheckTypeBodies(C, X, js, 1) IN
+  IF C1.res # "ok" THEN C1 ELSE DfsTypes(C1, X, [k \in 1..Len(js) |-> Name1(X.nodes[js[k]])], 1, {}).C
 
 \* Path directives (collectPaths): annotation, parent, two in a row under the same parent
 PathNodes(X) == SelectSeq([j \in 1..Len(X.nodes) |-> j], LAMBDA j : X.nodes[j].k = "Path")
@@ -123,6 +145,7 @@ CollectPaths(C, X, js, i, prevParent) ==
   IF i > Len(js) \/ C.res # "ok" THEN C
   ELSE LET j == js[i]  n == X.nodes[j] IN
        IF n.a # "" THEN CErr(C, "annotation", j, "kw")
+       ELSE IF n.parent # 0 /\ PathIdOf(X, n.parent) \in BlankPaths THEN CErr(C, "incorrectpath", j, "kw")
        ELSE IF n.parent # 0 /\ PathIdOf(X, n.parent) # "" /\ (\E x \in 1..Len(Params(PathIdOf(X, n.parent))) : Params(PathIdOf(X, n.parent))[x].name = "")
             THEN CErr(C, "emptyparam", j, "kw")                    \* the path the Path directive describes is parsed here, errors stand on Path
        ELSE IF n.parent # 0 /\ PathIdOf(X, n.parent) # "" /\ HasDupParam(PathIdOf(X, n.parent)) THEN CErr(C, "dupparam", j, "kw")
@@ -139,6 +162,7 @@ MissedPaths(C, X, js, i) ==
   ELSE LET j == js[i]  n == X.nodes[j]  pid == PathIdOf(X, j) IN
        IF n.k \notin (Methods \cup {"URL"}) \/ KidsOfKind(X, j, "Path") # <<>> THEN MissedPaths(C, X, js, i + 1)
        ELSE IF pid = "" THEN CErr(C, "pathnotfound", j, "kw")
+       ELSE IF pid \in BlankPaths THEN CErr(C, "incorrectpath", j, "kw")
        ELSE IF \E x \in 1..Len(Params(pid)) : Params(pid)[x].name = "" THEN CErr(C, "emptyparam", j, "kw")
        ELSE IF HasDupParam(pid) THEN CErr(C, "dupparam", j, "kw")
        ELSE MissedPaths(C, X, js, i + 1)
@@ -259,7 +283,7 @@ AddNode(C, X, j) ==
               IN [C EXCEPT !.types = Append(@, [name |-> Name1(n), annotation |-> n.a, schema |-> s])]
     [] n.k = "URL" ->
          IF n.a # "" THEN CErr(C, "annotation", j, "kw")
-         ELSE IF Name1(n) = "" THEN CErr(C, "incorrectpath", j, "kw")
+         ELSE IF Name1(n) = "" \/ n.p[1] \in BlankPaths THEN CErr(C, "incorrectpath", j, "kw")
          ELSE LET C1 == CheckPathParams(C, n.p[1], j) IN
               IF C1.res # "ok" THEN C1
               ELSE IF n.p[1] \in C.uniqUrl THEN CErr(C1, "duppath", j, "kw")
@@ -270,6 +294,7 @@ AddNode(C, X, j) ==
                       ELSE [C1 EXCEPT !.uniqUrl = @ \cup {n.p[1]}]
     [] n.k \in Methods ->
          IF PathIdOf(X, j) = "" THEN CErr(C, "pathnotfound", j, "kw")
+         ELSE IF PathIdOf(X, j) \in BlankPaths THEN CErr(C, "incorrectpath", j, "kw")
          ELSE LET pid == PathIdOf(X, j)  C1 == CheckPathParams(C, pid, j)  id == InterId(X, j) IN
               IF C1.res # "ok" THEN C1
               ELSE IF InterIdx(C1, id) # 0 THEN CErr(C1, "dupinteraction", j, "kw")
@@ -443,7 +468,7 @@ RunCatalog(T, X) ==
 ErrTok(X, C) == IF C.err.node < 0 THEN -C.err.node ELSE IF C.err.node = 0 THEN 0 ELSE X.nodes[C.err.node].tok
 
 \* ---- what the JSON must contain ------------------------------------------------------
-SchJ(s) == [notation |-> s.notation, root |-> s.root, rtype |-> s.rtype, uses |-> s.uses, uenums |-> s.enums, props |-> s.props]
+SchJ(s) == [notation |-> s.notation, root |-> s.root, rtype |-> s.rtype, uses |-> s.uses \cup s.inh, uenums |-> s.enums, props |-> s.props]
 Opt(x, f(_)) == IF x = <<>> THEN <<>> ELSE <<f(x[1])>>
 Skeleton(C) ==
   [jsight |-> C.jsight,
